@@ -4,6 +4,8 @@ use crate::decode::AppDecodeLevel;
 //@item rodbus/src/client/requests/write_multiple.rs | MultipleWriteRequest
 
 impl<T> MultipleWriteRequest<T> where WriteMultiple<T>: Serialize {
+//@fn rodbus/src/client/requests/write_multiple.rs | MultipleWriteRequest<T>::new | tags=C03
+//@|    ensures r.request == request, r.promise == promise,
 //@fn rodbus/src/client/requests/write_multiple.rs | MultipleWriteRequest<T>::serialize | tags=C03
 //@|    requires old(cursor).wf(), self.request.ser_pre(),
 //@|    ensures final(cursor).wf(), final(cursor).cap() == old(cursor).cap(), final(cursor).pos >= old(cursor).pos,
